@@ -4,7 +4,7 @@
    C17 (the seeded Louvain runs of the reproducibility check). *)
 From Coq Require Import String List Bool ZArith NArith Arith QArith.
 From GV Require Import Base.Outcome Base.AMap Model.GState Model.Creation Model.Query Model.Derived
-     Model.Partition Model.Louvain Spec.AGraph Spec.PartitionDef Run.Obs.
+     Model.Partition Model.Louvain Spec.AGraph Spec.PartitionDef Proofs.PartitionStateOk Run.Obs.
 Import ListNotations.
 Open Scope Z_scope.
 
@@ -32,11 +32,13 @@ Definition LEVEL_FUEL : nat := 40.
 Definition SWEEP_FUEL : nat := 300.
 
 (* ---- C12 ---- *)
-Definition names_of (g : zstate) : list Z := map nname (get_all_nodes g).
+Definition names_of (g : zstate) : list Z := PartitionStateOk.names_of g.
 
 Definition abs_flag (g : zstate) (weighted : bool) (gamma : Q) (comms : list (list Z))
            (ip : outcome bool) (md : outcome oq) : bool :=
   let nodes := names_of g in
+  (* the node indexes are coherent with the node list (hypothesis of C12_is_partition_state) *)
+  nodes_coherentb Z.eqb g && nodupb Z.eqb nodes &&
   (* the list-level partition test the theorems are about agrees with the state-level model *)
   (match ip with
    | Ok b => Bool.eqb b (is_partition_model Z.eqb nodes comms)
